@@ -377,6 +377,8 @@ func (c *SpecCtx) eval(e SExpr) Val {
 	case SOld:
 		n := *c
 		n.heap = c.old
+		n.locals = false // in the entry state a name denotes the parameter
+		n.env = nil
 		return n.eval(x.X)
 	case SLet:
 		v := c.eval(x.V)
@@ -906,7 +908,10 @@ func (c *SpecCtx) evalCall(x SCall) Val {
 		if v.S == "Ptr" {
 			r = pref(v.E)
 		} else if v.S == "Slice" {
+			// a well-formed slice value: nil, or a view of an array allocated earlier
 			r = sref(v.E)
+			return boolV(and(app("<=", "0", r), app("<", r, c.heap.now), app("<=", "0", slo(v.E)), app("<=", "0", sln(v.E)), app("<=", sln(v.E), scp(v.E)),
+				implies(eq(r, "0"), and(eq(sln(v.E), "0"), eq(scp(v.E), "0")))))
 		}
 		return boolV(and(app("<", "0", r), app("<", r, c.heap.now)))
 	case "has": // has(m, k)
